@@ -443,7 +443,7 @@ theorem read_emits_validated (pre : Predef) (env : Env V) (n : Node J V) (spec :
     (∃ m w c, msg = .errorUpdate m w c) ∨
     ∃ mod p w v, mod ∈ n ∧ Acc.param p ∈ mod.accs ∧ wireName pre mod (.param p) = some w ∧
       msg = .update mod.name w (p.dt.exportV v) ∧ Validated p.dt v := by
-  have hfail : ∀ (mod : Module J V) (p : Param J V) (e : Err) (calls : List (DriverCall V)),
+  have hfail : ∀ (mod : Module J V) (p : Param J V) (e : Node.Err) (calls : List (DriverCall V)),
       msg ∈ (readFailed pre n mod p e calls).emits → ∃ m w c, msg = .errorUpdate m w c := by
     intro mod p e calls hm
     unfold readFailed at hm
